@@ -39,7 +39,7 @@ pub fn c19_numpyenv_level_1_data() {
 }
 
 #[kani::proof]
-#[kani::unwind(12)]
+#[kani::unwind(48)]
 #[kani::stub(numpy::PyArray::from_slice, stub_from_slice)]
 pub fn c19_numpyenv_level_2_data() {
     let (se, d, tv) = any_numpy_env();
